@@ -248,6 +248,21 @@ theorem C08_convert (v e m1 m2 : ℝ) (h1 : 0 < m1) (h2 : 0 < m2) :
     Option.some.injEq, abs_div, abs_mul, abs_of_pos h1, abs_of_pos h2]
   field_simp
 
+/-- conversion to a reference *quantity* of exact magnitude `m ≠ 0` (`q.to(Quantity(m, units))`):
+    value and error are both multiplied by `(m1/m2)/m` resp. `(m1/m2)/|m|`; the relative
+    uncertainty is unchanged. -/
+theorem C08_convert_to_quantity (v e m1 m2 m : ℝ) (h1 : 0 < m1) (h2 : 0 < m2) (hm : m ≠ 0) :
+    ((Mag.convertLinear ⟨v, some e⟩ m1 m2).div ⟨m, none⟩).value = v * (m1 / m2) / m ∧
+    ((Mag.convertLinear ⟨v, some e⟩ m1 m2).div ⟨m, none⟩).error = some (e * (m1 / m2) / |m|) ∧
+    (v ≠ 0 → ((Mag.convertLinear ⟨v, some e⟩ m1 m2).div ⟨m, none⟩).rele = (⟨v, some e⟩ : Mag ℝ).rele) := by
+  refine ⟨by simp [Mag.convertLinear, Mag.div]; ring, by simp [Mag.convertLinear, Mag.div, divErr], ?_⟩
+  intro hv
+  have h3 : |v| ≠ 0 := abs_ne_zero.mpr hv
+  have h4 : |m| ≠ 0 := abs_ne_zero.mpr hm
+  simp only [Mag.convertLinear, Mag.div, divErr, Mag.rele, Mag.new_real, Option.map_some, absToRel, abs_real,
+    Option.some.injEq, abs_div, abs_mul, abs_of_pos h1, abs_of_pos h2]
+  field_simp
+
 /-! ### exact operands give exact results -/
 
 theorem C08_exact (l r : Mag ℝ) (p : Rat) (m1 m2 : ℝ) (hl : l.error = none) (hr : r.error = none) :
